@@ -1,36 +1,27 @@
-#!/usr/bin/env python3
+#!/venv/bin/python
 """Regenerates MANIFEST.json from the table below and the checks that exist in props/."""
+import importlib
 import json
 import os
+import sys
 
 ROOT = os.path.dirname(os.path.dirname(os.path.abspath(__file__)))
 PY = "/venv/bin/python"
-
-# property -> (category, technique, level text, level note, design ref)
-TABLE = {
-    "C11": ("exploration",
-            "Hypothesis-generated node sets, key corpora and add/remove/lookup histories; all insertion permutations enumerated (n<=6); differential against an independent statement of the rendezvous rule; metamorphic relations (permutation, history, removal/addition disruption); cross-process digest comparison",
-            "Placement is compared key by key with an independent reference of the published rule over generated node sets, under every insertion order (all n! up to 6 nodes), after arbitrary add/remove histories with lookups interleaved, with tie-forcing hashes, from equivalent address spellings, and across interpreters with different PYTHONHASHSEED. Sampling, not proof; the tie and order logic is small enough that short generated cases reach all of it.",
-            "Trusts vlib/refhash.py; keys or node names beyond Latin-1 are only checked for order/history independence.",
-            "DESIGN.md 3/C11"),
-    "C14": ("exploration",
-            "bounded-exhaustive enumeration + Hypothesis random strings, differential against an independent reference MurmurHash3 (Python, and C via ctypes)",
-            "Every string up to length 3-5 over representative alphabets x 4 boundary seeds is enumerated, every length 0..64 and random seeds are sampled; each result is compared with an independent MurmurHash3_x86_32 validated on 24 published vectors. Right level: the function is pure and tiny, the bug classes (masking, tail, rotation, sign) are all reachable by short inputs.",
-            "Trusts vlib/refhash.py (validated against published vectors and the C original) and CPython integer arithmetic.",
-            "DESIGN.md 3/C14"),
-}
 
 NOT_BUILT_REASON = "check not built yet in this session (work in progress; see DESIGN.md 7a for the order)"
 
 
 def main():
+    sys.path.insert(0, os.environ.get("VERIF_REPO", "/repo"))
+    sys.path.insert(0, ROOT)
     props = [json.loads(l) for l in open(os.path.join(ROOT, "properties.jsonl"))]
     checks, na = [], []
     for p in props:
         pid = p["id"]
         have = os.path.exists(os.path.join(ROOT, "props", pid.lower() + ".py"))
-        if have and pid in TABLE:
-            cat, tech, text, note, ref = TABLE[pid]
+        info = getattr(importlib.import_module("props." + pid.lower()), "MANIFEST", None) if have else None
+        if info:
+            cat, tech, text, note, ref = info["category"], info["technique"], info["text"], info["note"], info["design_ref"]
             checks.append({
                 "property_id": pid,
                 "quick_cmd": "%s run.py %s --tier quick" % (PY, pid),
